@@ -430,13 +430,33 @@ Theorem C05_source_interesting_keyboard_is_model : forall isalpha isdigit lower_
   py_interesting_keyboard isalpha isdigit lower_c combo =
   interesting isalpha isdigit lower_c kb_false_positive_words combo.
 Proof. exact py_interesting_keyboard_eq. Qed.
-(* detect_keyboard_walk with the default min_keyboard_run, for EVERY fuel (the translated
-   recursion runs out of fuel S n exactly when the model's runs out of n); kw_view forgets
-   the third result (detected_keyboards), which the parser does not use *)
-Theorem C05_source_detect_keyboard_walk_is_model : forall isalpha isdigit lower_c fuel pw,
-  kw_view (py_detect_keyboard_walk isalpha isdigit lower_c (S fuel) pw 4) =
-  detect_keyboard_walk isalpha isdigit lower_c py_kbs kb_false_positive_words 4 fuel pw.
+(* _detect_first_keyboard_walk (the first walk of a password; the 4th result is what remains
+   to be parsed, None when the password is finished) is the model's kw_loop step, up to
+   the detected keyboards; a walk found inside the loop ends before the end of the password *)
+Theorem C05_source_detect_first_keyboard_walk_is_model : forall isalpha isdigit lower_c pw,
+  option_map (fun x => (fst (fst (fst x)), snd (fst (fst x)), snd x))
+             (py_detect_first_keyboard_walk isalpha isdigit lower_c pw 4) = kw_first isalpha isdigit lower_c pw /\
+  (forall index combo,
+     kw_loop isalpha isdigit lower_c py_kbs kb_false_positive_words 4 pw 0 (map (fun _ => None) py_kbs) [] [] =
+     KFound index combo -> index < len pw).
+Proof. exact py_detect_first_keyboard_walk_eq. Qed.
+(* detect_keyboard_walk with the default min_keyboard_run: the loop over the walks
+   (`while remaining is not None`, fuel length + 1 in the translation) returns what the
+   model's recursion returns with the fuel that always suffices for it; kw_view forgets the
+   third result (detected_keyboards), which the parser does not use *)
+Theorem C05_source_detect_keyboard_walk_is_model : forall isalpha isdigit lower_c pw,
+  kw_view (py_detect_keyboard_walk isalpha isdigit lower_c pw 4) =
+  detect_keyboard_walk isalpha isdigit lower_c py_kbs kb_false_positive_words 4 (length pw) pw.
 Proof. exact py_detect_keyboard_walk_eq. Qed.
+(* R24 ("parsing never raises"): the translated detect_keyboard_walk never raises and its
+   loops never run out of the fuel the translation gives them (length of the password + 1),
+   for EVERY password, whatever its length and however many walks it holds - for every
+   oracle, and on the instance the correspondence runs *)
+Theorem C05_source_keyboard_walk_total : forall isalpha isdigit lower_c pw,
+  py_detect_keyboard_walk isalpha isdigit lower_c pw 4 <> None.
+Proof. exact py_detect_keyboard_walk_total. Qed.
+Theorem C05_source_keyboard_walk_total_c : forall pw, py_keyboard_walk_c pw <> None.
+Proof. exact py_keyboard_walk_c_total. Qed.
 (* the layouts read off the dict literals of the source are the extracted rows *)
 Theorem C05_side_translated_layouts :
   py_kbs = c_kbs /\ c_min_run = 4 /\ NoDup (map b_name py_keyboards) /\ Forall board_ok py_keyboards.
@@ -501,3 +521,5 @@ Print Assumptions C05_source_detect_keyboard_walk_is_model.
 Print Assumptions keyboard_split_ok_source.
 Print Assumptions C05_source_parse_full_is_model.
 Print Assumptions C05_tiling_source_full.
+Print Assumptions C05_source_keyboard_walk_total.
+Print Assumptions C05_source_keyboard_walk_total_c.
